@@ -112,7 +112,7 @@ CHECKS['C03'] = (
     'Whole-file forms through C01 (symtab_file_exact, sysv/gnu_file_exact, syminfo/shndx_file_exact, by-name incl. .dynsym, SHN_XINDEX companion found by the sh_link scan; _generated forms over the '
     'regenerated factory) for any byte string carrying a wfZ description. Link guards are theorems over a relaxed domain wfZCore (wrong type -> ELFError; header entry beyond the file -> TypeError as the code '
     'has it; truncated entry -> ELFParseError; nested links). Names that are not valid UTF-8: Python\'s errors=replace decoding is modelled (Unicode 15 §3.9 maximal subparts) and the reported names / name map / '
-    'SysV lookups are proved for arbitrary name bytes. Correspondence-only: malformed table contents, GNU-hash lookups under ill-formed name bytes (judged by a must/may rule), stray in-file headers with an accepted type, offsets >= 2^63.',
+    'SysV lookups are proved for arbitrary name bytes. Correspondence-only: malformed table contents, GNU-hash lookups under ill-formed name bytes (judged by a must/may rule), stray in-file headers with an accepted type, offsets >= 2^63. The cache _symbol_name_map is an instance of the generic cache machine (Model/SymCache): symtab_by_name_history_independent, symtab_failed_walk_publishes_nothing (any bytes, any history of get_symbol_by_name on one section object); tie: the harness asks all names of a case on ONE live section object and compares with the stateless model.',
     'DESIGN.md §6 C03')
 
 CHECKS['C01'] = (
